@@ -2,6 +2,7 @@
 sort key / bo-sn-iv tags, contracts on sort.compare_gaf and sort.process_alignment."""
 
 import os
+from vf.util import vary_name  # noqa: E402
 import random
 
 from vf import monitor as M
@@ -36,7 +37,7 @@ def build(rng, casedir, index, nrec=None, untagged=True, force_all_known=False, 
             n = rng.choice(list(tagsd))
             tagsd[n] = (-1, -1)
     w.tags = tagsd
-    w.gfa = os.path.join(casedir, "g.gfa" + (".gz" if rng.random() < 0.2 else ""))
+    w.gfa = os.path.join(casedir, vary_name(rng, "g.gfa") + (".gz" if rng.random() < 0.2 else ""))
     g.write(w.gfa, rng=rng, shuffle=rng.random() < 0.5, with_seq=rng.random() < 0.5, bo_no=tagsd)
     succ = g.successors()
     chrom_of = {}
@@ -75,7 +76,7 @@ def build(rng, casedir, index, nrec=None, untagged=True, force_all_known=False, 
     w.lines, w.text_kind = ggaf.text_variant([r.line for r in recs], rng, p=0.15 if text_variants else 0.0)
     w.mode = mode or rng.choice(["plain", "plain", "bgzf", "pysam"])
     w.layout = layout or rng.choice(["standard", "tiny", "line_start"])
-    w.gaf = os.path.join(casedir, "in.gaf" + ("" if w.mode == "plain" else ".gz"))
+    w.gaf = os.path.join(casedir, vary_name(rng, "in.gaf") + ("" if w.mode == "plain" else ".gz"))
     w.final_newline = rng.random() >= 0.15  # a last line without a line terminator is still a record
     ggaf.write_gaf(w.gaf, w.lines, mode=w.mode, rng=rng, layout=w.layout, final_newline=w.final_newline)
     return w
